@@ -322,6 +322,22 @@ def check(run):
             run.check(ok, 'D5', 'Boc.deserialize_cell' if not ok else f'exotic-type[{t}]', f'd1=0x08 first data byte {t}: parsed type {vrepr(ty)}', wp)
         except RaiseEx as e:
             run.fail('D5', 'Boc.deserialize_cell', f'exotic cell of type {t} rejected: {e}', wp)
+    # every level mask 1..7 is a legal descriptor (the 3 bits are a mask, levels 1..3): pruned branches and ordinary cells above them parse
+    for mask in range(1, 8):
+        npairs = bin(mask).count('1')
+        body = bytes([1, mask]) + bytes((7 * i + mask) % 256 for i in range(32 * npairs)) + b'\x00\x05' * npairs
+        for what, raw in ((f'pruned branch, mask {mask:03b}', bytes([8 + (mask << 5), 2 * len(body)]) + body),
+                          (f'ordinary cell with two references, mask {mask:03b}', bytes([2 + (mask << 5), 2, 0x55, 0, 1]))):
+            try:
+                res = it.call(it.getattr(boc, 'deserialize_cell'), [K(raw), K(1)], {})
+                cell = res.items[0] if isinstance(res, ListV) else res
+                ty = it.getitem(cell, K('type'), None) if isinstance(cell, DictV) else it.getattr(cell, 'type_')
+                want_t = 1 if what.startswith('pruned') else -1
+                ok = isinstance(ty, K) and ty.v == want_t
+                run.check(ok, 'D5', 'Boc.deserialize_cell[level mask]' if not ok else f'{what}', f'{what}: parsed type {vrepr(ty)}', wp)
+            except RaiseEx as e:
+                run.fail('D5', 'Boc.deserialize_cell[level mask]', f'{what} (d1 = {raw[0]:#04x}) is rejected: {e}', wp)
+            run.evaluations += 1
     res = it.call(it.getattr(boc, 'deserialize_cell'), [K(bytes([0, 2, 3])), K(1)], {})
     cell = res.items[0]
     ty = it.getitem(cell, K('type'), None) if isinstance(cell, DictV) else it.getattr(cell, 'type_')
